@@ -269,6 +269,16 @@ def c19_c(ctx):
         if isinstance(wl, ast.While) else False
     ctx.check(ok, ls, 'one retract after each advance phase', 'retract once per refinement',
               'the retract step is not executed once after the inner loop', fn=ls, node=ret[0])
+    # the last advance of a phase probed a point that may already be outside: on every path
+    # from an advance to the return the retract is executed
+    g = cfg_of(ls)
+    ok = g.must_follow(ctx.node(ls, adv[0]), [ctx.node(ls, ret[0])]) and \
+        g.must_follow(ctx.node(ls, oadv[0]), [ctx.node(ls, oret[0])])
+    ctx.check(ok, ls, 'every advance phase is retracted before the result is returned',
+              'no path from the advance to the return avoids the retract',
+              'a path from the advancing loop to the return skips the step back: the returned '
+              'offset can be a point where the objective is not below the threshold', fn=ls,
+              node=ret[0])
     # non-positive offset replaced by the (positive) step
     fix = [n for n in own_nodes(ls.node) if isinstance(n, ast.Assign) and
            isinstance(n.targets[0], ast.Name) and n.targets[0].id == off and
